@@ -73,9 +73,10 @@ def gen_heap(kind, depth, simulate, seed, part, parts):
             continue
         env = {"a": mk(0), "b": mk(0), "c": mk(0)}
         yield {"k": "reset", "o": {"t": "", "op": "", "dst": "", "l": "", "r": "", "k": 0},
-               "val": {n: fx(0) for n in "abc"}, "sh": [], "oc": "ok"}
+               "val": {n: fx(0) for n in "abc"}, "sh": [], "oc": "ok", "fresh": 1}
         for si, o in enumerate(beh):
             oc = "ok"
+            before = [id(v) for v in env.values()]
             try:
                 t = o["t"]
                 if t == "new":
@@ -114,4 +115,6 @@ def gen_heap(kind, depth, simulate, seed, part, parts):
                 vals = {n: fx(val(env[n])) for n in "abc"}
             except Exception:
                 vals, oc = {n: fx(-99999) for n in "abc"}, "bad-object"
-            yield {"k": "step", "o": o, "val": vals, "sh": sh, "oc": oc}
+            tgt = o["dst"] if o["t"] in ("bin", "num", "rnum", "neg", "abs") else (o["l"] if o["t"] in ("inp", "inpnum") else "")
+            fresh = 1 if (not tgt or oc != "ok" or id(env[tgt]) not in before) else 0
+            yield {"k": "step", "o": o, "val": vals, "sh": sh, "oc": oc, "fresh": fresh}
